@@ -22,6 +22,7 @@ var idPool = []string{
 	"22222222-2222-4222-8222-222222222222", "aaaaaaaa-aaaa-4aaa-8aaa-aaaaaaaaaaaa",
 	"ffffffff-ffff-4fff-bfff-ffffffffffff", "0a0b0c0d-0e0f-4a0b-8c0d-0e0f0a0b0c0d",
 	"12345678-9abc-4def-8123-456789abcdef", "fedcba98-7654-4321-8fed-cba987654321",
+	"00000000-0000-0000-0000-000000000000", "ffffffff-ffff-ffff-ffff-ffffffffffff",
 }
 
 var badIds = []interface{}{"not-a-uuid", "1234", int64(5), "00000000-0000-4000-8000-00000000000g", true}
@@ -275,6 +276,10 @@ func (h *HistGen) crit(depth int) *Crit {
 	case 8:
 		return &Crit{Kind: "cmp", Op: "OLtEq", Field: f, Val: h.operand()}
 	case 9:
+		if g.Chance(0.3) { // a single operand, often a reference in one of its two forms
+			ref := pickOf(g, []string{"a", "b", "x", "n.a", "zz"})
+			return &Crit{Kind: "in", Field: f, Vals: []Operand{pickOf(g, []Operand{{Lit: "$" + ref}, {IsRef: true, Ref: ref}, {Lit: int(g.Intn(6))}, {Lit: nil}})}}
+		}
 		n := g.Intn(4)
 		vs := make([]Operand, n)
 		for i := range vs {
@@ -386,6 +391,29 @@ func (h *HistGen) query(coll string, allowWindow, allowSort bool) QSpec {
 		}
 		return q
 	}
+	if h.cur != nil && len(h.cur.indexes) > 0 && g.Chance(0.08) {
+		// the whole criteria is one unary criteria on an indexed field (nil operands, Eq/In/Exists forms)
+		f := pickOf(g, h.cur.indexes)
+		var c *Crit
+		switch g.Intn(5) {
+		case 0:
+			c = &Crit{Kind: "cmp", Op: "OEq", Field: f, Val: Operand{Lit: nil}}
+		case 1:
+			c = &Crit{Kind: "cmp", Op: pickOf(g, []string{"OEq", "OLtEq", "OGtEq"}), Field: f, Val: Operand{Lit: pickOf(g, []interface{}{nil, int(g.Intn(6)), "a"})}}
+		case 2:
+			c = &Crit{Kind: "in", Field: f, Vals: []Operand{{Lit: pickOf(g, []interface{}{nil, "$b", "$a", int(g.Intn(6))})}}}
+		case 3:
+			c = &Crit{Kind: "exists", Field: f}
+		default:
+			c = &Crit{Kind: "neq", Field: f, Val: Operand{Lit: pickOf(g, []interface{}{nil, int(g.Intn(6))})}}
+		}
+		c.countOps(h.crits)
+		q.Steps = append(q.Steps, QStep{Kind: "where", C: c})
+		if allowSort && g.Chance(0.3) {
+			q.Steps = append(q.Steps, QStep{Kind: "sort", Opts: h.sortOpts()})
+		}
+		return q
+	}
 	if g.Chance(0.75) {
 		c := h.crit(3)
 		c.countOps(h.crits)
@@ -485,7 +513,7 @@ func (h *HistGen) updateMap() map[string]interface{} {
 	g := h.g
 	m := map[string]interface{}{}
 	// pairwise prefix-unrelated paths (Go map iteration order would otherwise matter)
-	cands := [][]string{{"a"}, {"b"}, {"x"}, {"n.a", "n"}, {"s"}, {"xy"}}
+	cands := [][]string{{"a"}, {"b"}, {"x"}, {"n.a", "n.a", "n", "n.b"}, {"s"}, {"xy"}}
 	for _, c := range cands {
 		if g.Chance(0.3) {
 			m[pickOf(g, c)] = h.literal()
@@ -646,6 +674,13 @@ func (h *HistGen) next() *Op {
 		q := h.query(c, true, true)
 		return &Op{Kind: "FindAll", Q: q, Mode: resultMode(q, false)}
 	case r < 77:
+		if g.Chance(0.35) {
+			q := QSpec{Coll: c, Steps: []QStep{{Kind: "skip", N: pickOf(g, []int{0, 1, 2, 3})}, {Kind: "limit", N: pickOf(g, []int{-1, 0, 1, 2, 3})}}}
+			if g.Chance(0.3) {
+				q.Steps = append(q.Steps, QStep{Kind: "sort", Opts: h.sortOpts()})
+			}
+			return &Op{Kind: "Count", Q: q}
+		}
 		return &Op{Kind: "Count", Q: h.query(c, true, true)}
 	case r < 80:
 		return &Op{Kind: "Exists", Q: h.query(c, true, true)}
